@@ -1,11 +1,14 @@
 import IncrVerif.Proofs.PerKeyH71
 import IncrVerif.Proofs.PerKeyH72
+import IncrVerif.Proofs.PerKeyH36
 /-!
 # Per-key operators, a run of an expert node, part 5: `XStepSpec` (but the clause `AuxP.slots` of the new state)
 
 `xStepSpec_of_slots`: one `recomputeOne env fuel n` on an expert node `n` of a per-key operator, from `PD env s (some n)`
 and `NoRem s`, GIVEN `SlotInv env s'` (proved by `pk-slots`), gives
 `PD env s' r ∧ NoRem s' ∧ PStep s s' ∧ ((V s').nodeD n).recomputedAt = s.stabNum`.
+`EntryOK.input` of a per-key input node that RUNS (its virtual stamp is not `-1` afterwards): the node is current, hence
+necessary, hence reached from its instance's return node (`priv_nec_below`, the ownership walk of LC2d).
 -/
 namespace IncrVerif.Proofs.PerKeyH
 open IncrVerif IncrVerif.Engine IncrVerif.Driver IncrVerif.Proofs IncrVerif.Proofs.Step IncrVerif.Proofs.Sched
@@ -110,6 +113,7 @@ theorem xStepSpec_of_slots (env : Env) (fuel n e : Nat) (s s' : State) (r : Opti
   -- the bookkeeping
   have P' : PKOK env s' := by
     refine pkok_frame A.pk G hpkeys k4 hobs k1 (fun op pr hp => ?_) (fun op pr hp => ?_)
+      (fun op pr e2 er2 key p d hp hres he2 hm h0 => ?_)
     · obtain ⟨x, e2, er2, hN, -⟩ := (A.pk.ops op pr hp).nodes
       exact hvalX _ (fun e' he' => by rw [hN.conv] at he'; cases he')
     · obtain ⟨x, e2, er2, hN, -⟩ := (A.pk.ops op pr hp).nodes
@@ -129,6 +133,14 @@ theorem xStepSpec_of_slots (env : Env) (fuel n e : Nat) (s s' : State) (r : Opti
         have hc := hN.conv
         rw [← h2, hk] at hc
         cases hc
+    · -- the semantic link of the per-key input nodes: the node that ran is necessary, hence used by its instance
+      by_cases hpn : p = n
+      · subst hpn
+        have hnec : s.isNecessary p = true := by
+          have := (I.cur p rfl).1
+          rwa [V_isNecessary] at this
+        exact Or.inr (priv_nec_below D hp hm hres he2 hnec)
+      · exact Or.inl (by rw [(R.other p hpn).recomputedAt]; exact h0)
   have N' : NoRem s' := norem_frame N G.kind hpkeys hvars hvalX
   -- the auxiliary invariant
   obtain ⟨rk, hrk⟩ := A.rank
